@@ -6,3 +6,7 @@ import Tv.Thm.C01
 #print axioms Tv.C01.specVar_textbook
 #print axioms Tv.C01.eps_matches
 #print axioms Tv.C01.minK_in_table
+#print axioms Tv.C01.tsVfdiff_exact
+#print axioms Tv.C01.tsFdiff_exact
+#print axioms Tv.C01.gbinom_product
+#print axioms Tv.C01.fdiffCoef_spec
